@@ -195,6 +195,10 @@ fn start_position(rng: &mut Rng) -> (Pos, bool) {
 fn position_cmd(start: &Pos, from_startpos: bool, moves: &[String], rng: &mut Rng) -> String {
     let head = if from_startpos && rng.chance(4, 5) {
         "position startpos".to_string()
+    } else if start.hmc == 0 && start.fmn == 1 && rng.chance(1, 2) {
+        // default counters may be left out (a valid four-field FEN)
+        let f = start.to_fen();
+        format!("position fen {}", f.split_whitespace().take(4).collect::<Vec<_>>().join(" "))
     } else {
         format!("position fen {}", start.to_fen())
     };
@@ -265,7 +269,11 @@ pub fn generate(cx: &super::GenCtx) -> Vec<Plan> {
                     out_related += 1;
                     (st, fs, ms, ps)
                 } else {
-                    let (start, from_startpos) = start_position(&mut rng);
+                    let (mut start, from_startpos) = start_position(&mut rng);
+                    if !from_startpos && rng.chance(1, 5) {
+                        start.hmc = 0;
+                        start.fmn = 1;
+                    }
                     let plies = match rng.below(6) {
                         0 => 0,
                         1 => rng.below(4),
